@@ -13,5 +13,6 @@ CONSTANTS
   MaxStore = 1
   CtxMode = "returns"
   MaxStalls = 1
+  StaleNextHop = FALSE
 INVARIANTS TypeOK SuccessOnlyIf KeysAgree PoolIsIssued PoolReturned Destination NoResidue NoResidueState
 PROPERTIES IgnoresNonCritical
